@@ -50,6 +50,38 @@ func ruleSeenSet(c *eng.Ctx, rule string, pkgs []string, floor int) {
 			apps = append(apps, app{f, call.Args[1], as.Pos()})
 			return true
 		})
+		// map-based seen-sets: `if _, ok := x.F[e]; ok {…}` … `x.F[e] = …` on a struct field — exhaustive by construction
+		ast.Inspect(fi.Decl.Body, func(m ast.Node) bool {
+			as, ok := m.(*ast.AssignStmt)
+			if !ok || len(as.Lhs) != 1 {
+				return true
+			}
+			ix, ok := ast.Unparen(as.Lhs[0]).(*ast.IndexExpr)
+			if !ok {
+				return true
+			}
+			if _, isMap := info.TypeOf(ix.X).Underlying().(*types.Map); !isMap {
+				return true
+			}
+			if _, isSel := ast.Unparen(ix.X).(*ast.SelectorExpr); !isSel {
+				return true
+			}
+			field, key := eng.ExprStr(ix.X), eng.ExprStr(ix.Index)
+			tested := false
+			ast.Inspect(fi.Decl.Body, func(x ast.Node) bool {
+				if a2, ok := x.(*ast.AssignStmt); ok && len(a2.Lhs) == 2 && len(a2.Rhs) == 1 {
+					if ix2, ok := ast.Unparen(a2.Rhs[0]).(*ast.IndexExpr); ok && eng.ExprStr(ix2.X) == field && eng.ExprStr(ix2.Index) == key {
+						tested = true
+					}
+				}
+				return true
+			})
+			if tested {
+				n++
+				c.OK(rule, fmt.Sprintf("%s:seen-set(%s)", shortFn(fi), field), as.Pos(), "map-based membership test")
+			}
+			return true
+		})
 		for _, a := range apps {
 			eObj := eng.ObjOf(info, a.elem)
 			// comparisons of an element of the field with e
